@@ -70,6 +70,9 @@ pub enum Extra {
     Complement { key: [u8; 8], block: [u8; 8] },
     /// EDE3(k,k,k) = DES(k); EDE2(k1,k2) = EDE3(k1,k2,k1); EEE2(k1,k2) = EEE3(k1,k2,k1); vs reference composition
     Relations { k1: [u8; 8], k2: [u8; 8], block: [u8; 8] },
+    /// three-key bundles built from special parts (NIST weak keys, keys equal modulo parity, generic): EDE3 / EEE3 vs the
+    /// composition of the single-DES reference, both directions
+    Bundle3 { k1: [u8; 8], k2: [u8; 8], k3: [u8; 8], block: [u8; 8] },
 }
 
 impl Extra {
@@ -79,6 +82,7 @@ impl Extra {
             Extra::Parity { key, block } => json!({"kind":"des-extra","which":"parity","key":hex(key),"block":hex(block)}),
             Extra::Complement { key, block } => json!({"kind":"des-extra","which":"complement","key":hex(key),"block":hex(block)}),
             Extra::Relations { k1, k2, block } => json!({"kind":"des-extra","which":"relations","k1":hex(k1),"k2":hex(k2),"block":hex(block)}),
+            Extra::Bundle3 { k1, k2, k3, block } => json!({"kind":"des-extra","which":"bundle3","k1":hex(k1),"k2":hex(k2),"k3":hex(k3),"block":hex(block)}),
         }
     }
     fn from_json(v: &Value) -> Option<Extra> {
@@ -88,6 +92,7 @@ impl Extra {
             "parity" => Extra::Parity { key: a("key")?, block: a("block")? },
             "complement" => Extra::Complement { key: a("key")?, block: a("block")? },
             "relations" => Extra::Relations { k1: a("k1")?, k2: a("k2")?, block: a("block")? },
+            "bundle3" => Extra::Bundle3 { k1: a("k1")?, k2: a("k2")?, k3: a("k3")?, block: a("block")? },
             _ => return None,
         })
     }
@@ -130,6 +135,24 @@ pub fn check(x: &Extra) -> Result<(), (String, String)> {
                 let b = not(&e::<Des>(key, block));
                 if a != b {
                     return Err((format!("~E(k,p) = {}", hex(&b)), format!("E(~k,~p) = {}", hex(&a))));
+                }
+            }
+            Extra::Bundle3 { k1, k2, k3, block } => {
+                let key = cat(&[k1, k2, k3]);
+                for (ede, mode) in [(true, refmodels::des::TdesMode::Ede), (false, refmodels::des::TdesMode::Eee)] {
+                    let rf = refmodels::des::Tdes::new(&key, mode);
+                    let mut ex = *block;
+                    rf.encrypt(&mut ex);
+                    let got = if ede { e::<TdesEde3>(&key, block) } else { e::<TdesEee3>(&key, block) };
+                    if got != ex {
+                        return Err((format!("{} E = {}", if ede { "EDE3" } else { "EEE3" }, hex(&ex)), format!("E = {}", hex(&got))));
+                    }
+                    let mut dx = *block;
+                    rf.decrypt(&mut dx);
+                    let got = if ede { d::<TdesEde3>(&key, block) } else { d::<TdesEee3>(&key, block) };
+                    if got != dx {
+                        return Err((format!("{} D = {}", if ede { "EDE3" } else { "EEE3" }, hex(&dx)), format!("D = {}", hex(&got))));
+                    }
                 }
             }
             Extra::Relations { k1, k2, block } => {
@@ -212,6 +235,33 @@ pub fn run(ctx: &Ctx, rep: &mut Report) {
             cases.push(Extra::Relations { k1: *k1, k2: *k2, block: db });
         }
     }
+    // three-key bundles from special parts: a few NIST weak / semi-weak / possibly-weak keys, their parity variants,
+    // generic keys and a key equal to another modulo parity
+    {
+        use refmodels::des::NIST_WEAK_KEYS as W;
+        let g1: [u8; 8] = al::dense(8, 112, 0).try_into().unwrap();
+        let g2: [u8; 8] = al::dense(8, 112, 1).try_into().unwrap();
+        let mut g1p = g1;
+        for b in g1p.iter_mut() {
+            *b ^= 1;
+        }
+        let mut w0p = W[0];
+        w0p[3] ^= 1;
+        let parts: Vec<[u8; 8]> = if ctx.tier == Tier::Quick {
+            vec![W[0], W[1], W[5], W[20], w0p, g1, g2, g1p]
+        } else {
+            let mut v: Vec<[u8; 8]> = W.iter().step_by(4).cloned().collect();
+            v.extend([w0p, g1, g2, g1p]);
+            v
+        };
+        for a in &parts {
+            for b in &parts {
+                for c in &parts {
+                    cases.push(Extra::Bundle3 { k1: *a, k2: *b, k3: *c, block: db });
+                }
+            }
+        }
+    }
     const CH: usize = 512;
     let n = cases.len().div_ceil(CH);
     let cases = &cases;
@@ -222,6 +272,7 @@ pub fn run(ctx: &Ctx, rep: &mut Report) {
             r.calls += match c {
                 Extra::Parity { .. } => 1026,
                 Extra::Relations { .. } => 20,
+                Extra::Bundle3 { .. } => 8,
                 _ => 4,
             };
             match check(c) {
@@ -233,6 +284,7 @@ pub fn run(ctx: &Ctx, rep: &mut Report) {
                             Extra::Parity { .. } => "parity",
                             Extra::Complement { .. } => "complementation",
                             Extra::Relations { .. } => "key-relations",
+                            Extra::Bundle3 { .. } => "conformance",
                         };
                         r.violate(Violation { property: P.into(), subject: "Des/Tdes".into(), what: what.into(), case: c.to_json(), expected: e, observed: o, note: "DES relation violated".into(), index: (ci * CH + j) as u64 });
                     }
